@@ -22,6 +22,30 @@ def install(eng):
         return [(st, v)]
 
     # ------------------------------------------------ spec language
+    def mk_patterns(eng, st, pats, vs, node):
+        """trigger=lambda i: t | (t1, t2) (multi-pattern) | [alt1, alt2, ...] (alternative patterns)"""
+        if pats is None:
+            return None
+        pv = pats.call(eng, st, vs, {}, node)[0][1]
+        alts = [pv]
+        if isinstance(pv, View) and is_conc_int(pv.length):
+            alts = [pv.get(k) for k in range(pv.length)]
+        out = []
+        for a in alts:
+            pl = list(a.items) if isinstance(a, Tup) else [a]
+            if not all(is_z3(x) for x in pl):
+                return None
+            out.append(z3.MultiPattern(*pl) if len(pl) > 1 else pl[0])
+        return out
+
+    def mk_forall(vs, body, pats):
+        if pats:
+            try:
+                return z3.ForAll(vs, body, patterns=pats)
+            except z3.Z3Exception:
+                pass
+        return z3.ForAll(vs, body)
+
     @reg('forall')
     def _forall(eng, st, args, kw, node):
         lo, hi, body = args
@@ -31,8 +55,18 @@ def install(eng):
         if r is True:
             return one(st, True)
         guard = z3.And(to_int(lo) <= i, i < to_int(hi))
-        pats = kw.get('trigger')
-        return one(st, z3.ForAll([i], z3.Implies(guard, to_bool_term(r))))
+        return one(st, mk_forall([i], z3.Implies(guard, to_bool_term(r)), mk_patterns(eng, st, kw.get('trigger'), [i], node)))
+
+    @reg('forall_n')
+    def _forall_n(eng, st, args, kw, node):
+        (body,) = args
+        import ast as _ast
+        lam = [a for a in node.args if isinstance(a, _ast.Lambda)][0]
+        vs = [z3.Int(uid('q')) for _ in range(len(lam.args.args))]
+        r = simp(eng.truth(body.call(eng, st, vs, {}, node)[0][1]))
+        if r is True:
+            return one(st, True)
+        return one(st, mk_forall(vs, to_bool_term(r), mk_patterns(eng, st, kw.get('trigger'), vs, node)))
 
     @reg('exists')
     def _exists(eng, st, args, kw, node):
@@ -304,7 +338,7 @@ def install(eng):
         st.assume(S(0) == 0)
         st.assume(z3.ForAll([n], z3.Implies(z3.And(n >= 0, n < to_int(v.length)), S(n + 1) == S(n) + to_int(v.get(n))),
                             patterns=[S(n + 1)]))
-        st.env['_psum_last'] = S
+        st.env['_psum'] = Fn(lambda eng2, s2, a2, k2, n2, _S=S: [(s2, _S(to_int(a2[0])))], '_psum')
         return one(st, S(to_int(v.length)))
 
     @reg('divmod')
@@ -315,32 +349,29 @@ def install(eng):
             return []
         return one(st, Tup([num_binop('//', a, b, Pending()), num_binop('%', a, b, Pending())]))
 
-    @reg('super')
-    def _super(eng, st, args, kw, node):
-        class _Super:
-            pass
-        selfv = st.env.get('self')
-        fr = eng.frame
-        cls = fr.qual.split('.')[0]
-        ent = eng.find_class(cls)
-        base = None
-        if ent:
-            for b in ent[1].bases:
-                import ast as _ast
-                bn = _ast.unparse(b).split('.')[-1]
-                if eng.find_class(bn, ent[0]):
-                    base = bn
-                    break
-
-        def getattr_(eng2, s, a, k, n):
-            return [(s, None)]
-        r = SuperVal(selfv, base)
-        return one(st, r)
-
     class SuperVal:
         def __init__(self, selfv, base):
             self.selfv = selfv
             self.base = base
+
+    @reg('super')
+    def _super(eng, st, args, kw, node):
+        import ast as _ast
+        if args:
+            cls = args[0].name
+            selfv = args[1]
+        else:
+            selfv = st.env.get('self')
+            cls = eng.frame.qual.split('.')[0]
+        ent = eng.find_class(cls)
+        base = None
+        if ent:
+            for b in ent[1].bases:
+                bn = _ast.unparse(b).split('.')[-1]
+                if eng.find_class(bn, ent[0]):
+                    base = bn
+                    break
+        return one(st, SuperVal(selfv, base))
     eng.SuperVal = SuperVal
 
     # ------------------------------------------------ slice objects (trusted model of CPython's slice.indices)
